@@ -8,6 +8,7 @@ import Rare.Proofs.C07Sorted
 import Rare.Spec.C07Mode
 import Rare.Proofs.C07NumF64Arith
 import Rare.Proofs.C07AccOpt
+import Rare.Proofs.C07GroupKey
 /-!
 C07 – Aggregators compute the exact fold of their sample history.
 
@@ -546,6 +547,49 @@ theorem groupkey_parts (s : AccGroup) (ctx : Ctx) :
           | ok r' => rw [hl] at h; simp only [Except.ok.injEq] at h; subst h; simp [ih r' hl]
     exact this _ _ hm
 
+/-- Group keys at EVERY arity (no, one, two, … group expressions) and with empty values at any position.
+For the values `vs` the group expressions yield: the key is their NUL-join and there is one value per group column;
+the cells the consumers show (`groupCells`: `GroupColCount()` cells, cell `i` = `Parts()[i]`, surplus parts dropped,
+missing ones empty – `cmd/reduce.go`, `csv.WriteAccumulator`) are EXACTLY the values iff no value contains NUL.  In
+particular a single empty value (key "", no parts) is shown as one empty cell, and leading / trailing / inner empty
+values of a longer tuple keep their positions (seeded/C07-groupkey-leading-empty breaks this equation). -/
+theorem groupkey_cells (s : AccGroup) (ctx : Ctx) (k : Bytes) (vs : List Bytes)
+    (hvs : s.groupDef.mapM (m := Except String) (fun g => g.expr.run ctx) = .ok vs)
+    (hk : s.buildGroupKey ctx = .ok k) :
+    k = nulJoin vs ∧ vs.length = s.groupColCount ∧
+    (groupCells s.groupColCount k = vs ↔ ∀ v ∈ vs, (0 : UInt8) ∉ v) := by
+  rw [buildGroupKey_eq, hvs] at hk
+  simp only [Except.map, Except.ok.injEq] at hk
+  subst hk
+  have hl : vs.length = s.groupColCount := mapM_run_length ctx _ _ hvs
+  refine ⟨rfl, hl, ?_⟩
+  rw [← hl]
+  exact groupCells_nulJoin_iff vs
+
+/-- Distinct group tuples never share a row: for NUL-free group values, two samples get the same group key IFF
+their group tuples are equal – whatever the arity and wherever the empty values are. -/
+theorem groupkey_injective (s : AccGroup) (c1 c2 : Ctx) (k1 k2 : Bytes) (vs ws : List Bytes)
+    (h1 : s.groupDef.mapM (m := Except String) (fun g => g.expr.run c1) = .ok vs)
+    (h2 : s.groupDef.mapM (m := Except String) (fun g => g.expr.run c2) = .ok ws)
+    (hk1 : s.buildGroupKey c1 = .ok k1) (hk2 : s.buildGroupKey c2 = .ok k2)
+    (hv : ∀ v ∈ vs, (0 : UInt8) ∉ v) (hw : ∀ w ∈ ws, (0 : UInt8) ∉ w) :
+    k1 = k2 ↔ vs = ws := by
+  obtain ⟨e1, l1, _⟩ := groupkey_cells s c1 k1 vs h1 hk1
+  obtain ⟨e2, l2, _⟩ := groupkey_cells s c2 k2 ws h2 hk2
+  subst e1 e2
+  exact ⟨fun h => nulJoin_injective vs ws (l1.trans l2.symm) hv hw h, fun h => by rw [h]⟩
+
+/-- Just outside that class: group values that contain the separator.  Two different tuples of the same arity share
+one key (their samples are accumulated into ONE row), and the displayed cells are not the values. -/
+theorem groupkey_nul_counterexample :
+    nulJoin [[97, 0, 98], [99]] = nulJoin [[97], [98, 0, 99]] ∧
+    ([[97, 0, 98], [99]] : List Bytes) ≠ [[97], [98, 0, 99]] ∧
+    groupCells 2 (nulJoin [[97, 0, 98], [99]]) ≠ [[97, 0, 98], [99]] := by
+  refine ⟨by decide, by decide, ?_⟩
+  intro h
+  have := (groupCells_nulJoin_iff [[97, 0, 98], [99]]).mp h [97, 0, 98] (by simp)
+  exact this (by decide)
+
 /-- Which definitions a sequence of configuration calls leaves behind: those whose expression compiled,
 the first of each name, in call order (group names and data names are separate name spaces); no call panics. -/
 theorem accgroup_config (ops : List AccOp) (hcfg : ∀ op ∈ ops, op.isSample = false) :
@@ -645,6 +689,9 @@ example : (match exAcc.buildGroupKey (accCtx [97, 0, 112] [] none), exAcc.buildG
 /-- hypotheses of `accgroup_comm`: both orders are accepted from the configured aggregator. -/
 example : ∃ s12, exAcc.run [[97, 0, 112], [98, 0, 113]] = .ok s12 := ⟨_, rfl⟩
 example : ∃ s', exAcc.sample [97, 0, 112] = .ok s' := ⟨_, rfl⟩
+example : groupCells 1 (nulJoin [[]]) = [[]] ∧ groupCells 0 (nulJoin []) = [] ∧
+    groupCells 3 (nulJoin [[], [120], []]) = [[], [120], []] :=
+  ⟨groupCells_nulJoin [[]] (by decide), groupCells_nulJoin [] (by decide), groupCells_nulJoin [[], [120], []] (by decide)⟩
 example : StrictTotal bLt := bLt_strictTotal
 example : ∀ val : Bytes → Int, StrictTotal (keyLess nvNameSorter val) ∧ StrictTotal (keyLess nvValueSorter val) :=
   fun val => ⟨nvName_strictTotal val, nvValue_strictTotal val⟩
